@@ -520,9 +520,10 @@ func runC05(env *Env, s Scenario) {
 			continue
 		}
 		if j := i + 1; j < len(sr.Recs) && !sr.Recs[j].Skipped && !sr.Recs[j].Panicked && sc.Ops[j].Kind != "close" {
-			if sc.Ops[j].TimeoutUS < 0 || sc.Ops[j].ResumeAfterUS > 0 {
+			if sc.Ops[j].TimeoutUS < 0 || sc.Ops[j].ResumeAfterUS > 0 || sr.ResumeT > sr.Recs[i].End {
 				// (an operation with timeout 0 = maximum waits until the device speaks again, and
-				// the harness lets it speak again: success is the right answer)
+				// the harness lets it speak again: success is the right answer; the same holds
+				// when the helper that an earlier such operation started lifts this second silence)
 				env.Probe("second-stall-met-an-operation-without-timeout")
 
 				break
